@@ -18,6 +18,7 @@ import (
 	"sync/atomic"
 	"time"
 
+	"github.com/99designs/gqlgen/graphql"
 	"github.com/99designs/gqlgen/graphql/handler"
 	"github.com/99designs/gqlgen/graphql/handler/transport"
 	"github.com/vektah/gqlparser/v2/gqlerror"
@@ -292,6 +293,7 @@ func serverFor(name string) *server {
 	h := handler.New(es)
 	h.AddTransport(ws)
 	h.AddTransport(transport.POST{})
+	h.Use(rejectGate{})
 	h.SetRecoverFunc(func(ctx context.Context, err any) error {
 		if cs := connFrom(ctx); cs != nil {
 			if s, ok := err.(string); !ok || s != plannedPanic {
@@ -334,6 +336,18 @@ func serverFor(name string) *server {
 	s := &server{ts: ts, tl: tl}
 	servers[name] = s
 	return s
+}
+
+// rejectGate refuses operations named RejectMe with an ordinary error (no protocol error code).
+type rejectGate struct{}
+
+func (rejectGate) ExtensionName() string                   { return "VerifRejectGate" }
+func (rejectGate) Validate(graphql.ExecutableSchema) error { return nil }
+func (rejectGate) MutateOperationParameters(ctx context.Context, rp *graphql.RawParams) *gqlerror.Error {
+	if strings.Contains(rp.Query, "RejectMe") {
+		return gqlerror.Errorf("refused by the gate")
+	}
+	return nil
 }
 
 func wsURL(s *server) string {
